@@ -38,7 +38,8 @@
 EXTENDS Naturals, Sequences, FiniteSets, TLC
 
 CONSTANTS MaxTargets,       \* assignment statements with 1..MaxTargets targets
-          ChainAny          \* TRUE only in the sensitivity cfg: a seeded-bug Impl of the removal decision
+          ChainAny,         \* TRUE only in the sensitivity cfg: a seeded-bug Impl of the removal decision
+          FlagBlind         \* TRUE only in the sensitivity cfg: a seeded-bug Impl of the %-specifier guard
 
 (***************************************************************************)
 (* Family 1: assignment statements                                         *)
@@ -93,7 +94,8 @@ ShapesOf(p) ==
       [] p = "use_fstrings" -> {"single", "tuple", "mapping", "percent", "conv_r", "conv_d", "width", "precision",
                                 "needs_parens", "attribute", "single_quote_inside", "double_quote_inside",
                                 "both_quotes", "trailing_text", "newline_end", "newline_end_notext", "newline_mid",
-                                "tab_escape", "brace", "tuple_var", "bytes", "str_of_tuple", "two_trailing_newline"}
+                                "tab_escape", "brace", "tuple_var", "bytes", "str_of_tuple", "two_trailing_newline",
+                                "double_newline_end"}
       [] p = "too_many_positional_args" -> {"plain", "defaults", "kwonly", "varargs", "posonly", "starred", "mixed_kw",
                                             "below_limit"}
       [] p = "unused_ignore" -> {"own_line", "own_line_bare", "trailing", "trailing_text_after", "trailing_text_before",
@@ -158,6 +160,7 @@ PercentAttr(s) ==
          [] s = "bytes"      -> [D EXCEPT !.bytes = TRUE]
          [] s = "newline_end" -> [D EXCEPT !.tailnl = TRUE]       \* text between the last specifier and a final newline
          [] s = "two_trailing_newline" -> [D EXCEPT !.tailnl = TRUE]
+         [] s = "double_newline_end" -> [D EXCEPT !.tailnl = TRUE]   \* "a %s\n\n": the text before the final newline is "\n"
          [] OTHER -> D
 \* format_strings.py:414 bytes, :418 braces, :423-435 special specifiers, :437 conversion types, :440-449 arguments
 ImplPercentReports(a) ==
@@ -190,10 +193,32 @@ ImplIgnoreReports(a) == << [offer |-> TRUE] >>
 RefIgnoreIntended(a) == a.incomment /\ a.after # "text"
 
 (***************************************************************************)
+(* Family 3 (fam = "pct"): the FIELDS of a %-conversion specifier          *)
+(*   flag  "" / "+" / " " / "-" / "0" / "#";  width "none" / "5";          *)
+(*   prec  "none" / "0" / "2";  conv d s r x f;  two: a second plain %s    *)
+(* The use_fstrings replacement writes `{arg}` for the specifier, i.e. it  *)
+(* DROPS every field.                                                      *)
+(***************************************************************************)
+PctFlags == {"", "+", " ", "-", "0", "#"}
+PctWidths == {"none", "5"}
+PctPrecs == {"none", "0", "2"}
+PctConvs == {"d", "s", "r", "x", "f"}
+\* format_strings.py:423-435: a TRUTHINESS test over [mapping_key, conversion_flags, field_width, precision,
+\* length_modifier] -- a parsed precision of 0 is falsy; :437 only d / s.  FlagBlind = TRUE is the seeded variant that
+\* leaves conversion_flags out of the test.
+ImplPctSpecial(c) == (~FlagBlind /\ c.flag # "") \/ c.width # "none" \/ c.prec = "2"
+ImplPctReports(c) == IF ImplPctSpecial(c) \/ c.conv \notin {"d", "s"} THEN << >> ELSE << [offer |-> TRUE] >>
+\* Ref (CPython's % operator): writing the argument with str() gives the same text for every value only when the
+\* specifier has no flag and no width, the conversion is d or s, and there is no precision -- except `.0` on d, which
+\* asks for at least zero digits and changes nothing
+RefPctPlain(c) == c.flag = "" /\ c.width = "none" /\ c.conv \in {"d", "s"} /\ (c.prec = "none" \/ (c.prec = "0" /\ c.conv = "d"))
+
+(***************************************************************************)
 (* Common: reports, application (first change only), Ref, deviations       *)
 (***************************************************************************)
 Reports(c) ==
     IF c.fam = "assign" THEN ImplAssignReports(c)
+    ELSE IF c.fam = "pct" THEN ImplPctReports(c)
     ELSE CASE c.producer = "unused" -> ImplUnusedReports(UnusedAttr(c.shape))
            [] c.producer = "missing_f" -> ImplMissingFReports(MissingFAttr(c.shape))
            [] c.producer = "use_fstrings" -> ImplPercentReports(PercentAttr(c.shape))
@@ -203,6 +228,7 @@ Reports(c) ==
 Applied(c) == Reports(c) # << >> /\ Reports(c)[1].offer
 Intended(c) ==
     IF c.fam = "assign" THEN RefRemovalIntended(c)
+    ELSE IF c.fam = "pct" THEN RefPctPlain(c)
     ELSE CASE c.producer = "unused" -> TRUE
            [] c.producer = "missing_f" -> RefMissingFIntended(MissingFAttr(c.shape))
            [] c.producer = "use_fstrings" -> RefPercentIntended(PercentAttr(c.shape))
@@ -226,11 +252,15 @@ Dev_IgnoreRemovalLeavesText(c) ==
 Dev_IgnoreRemovalInString(c) ==
     c.fam = "table" /\ c.producer = "unused_ignore" /\ ~IgnoreAttr(c.shape).incomment
 
+Dev_PercentZeroPrecision(c) ==   \* `'%.0s' % x` (always the empty string) is rewritten to f'{x}'
+    c.fam = "pct" /\ Applied(c) /\ c.conv = "s" /\ c.prec = "0" /\ c.flag = "" /\ c.width = "none"
+
 Known(c) ==
-    {k \in {"unused-removal-drops-call", "unused-removal-deletes-other-binding", "missing-f-on-part-of-fstring",
+    {k \in {"use-fstrings-drops-zero-precision", "unused-removal-drops-call", "unused-removal-deletes-other-binding", "missing-f-on-part-of-fstring",
             "use-fstrings-drops-text-before-final-newline", "too-many-positional-keywords-positional-only",
             "unused-ignore-removal-leaves-text", "unused-ignore-removal-edits-string"} :
-        CASE k = "unused-removal-drops-call" -> Dev_RemovalDropsCall(c)
+        CASE k = "use-fstrings-drops-zero-precision" -> Dev_PercentZeroPrecision(c)
+          [] k = "unused-removal-drops-call" -> Dev_RemovalDropsCall(c)
           [] k = "unused-removal-deletes-other-binding" -> Dev_RemovalOfOtherBinding(c)
           [] k = "missing-f-on-part-of-fstring" -> Dev_MissingFOnFStringPart(c)
           [] k = "use-fstrings-drops-text-before-final-newline" -> Dev_PercentDropsTail(c)
@@ -238,7 +268,8 @@ Known(c) ==
           [] k = "unused-ignore-removal-leaves-text" -> Dev_IgnoreRemovalLeavesText(c)
           [] k = "unused-ignore-removal-edits-string" -> Dev_IgnoreRemovalInString(c)}
 ClausesOf(k) ==
-    CASE k = "unused-removal-drops-call" -> {"OnlyIntendedChange"}
+    CASE k = "use-fstrings-drops-zero-precision" -> {"OnlyIntendedChange"}
+      [] k = "unused-removal-drops-call" -> {"OnlyIntendedChange"}
       [] k = "unused-removal-deletes-other-binding" -> {"OnlyIntendedChange", "NoNewDiagnosticKind"}
       [] k = "missing-f-on-part-of-fstring" -> {"StillParses", "ProposingDiagnosticGone"}
       [] k = "use-fstrings-drops-text-before-final-newline" -> {"OnlyIntendedChange"}
@@ -257,6 +288,8 @@ PickFam ==
     /\ stage = "fam"
     /\ \/ c' = EmptyAssign /\ stage' = "targets"
        \/ \E p \in Producers : c' = [fam |-> "table", producer |-> p, shape |-> ""] /\ stage' = "shape"
+       \/ \E fl \in PctFlags, w \in PctWidths, pr \in PctPrecs, cv \in PctConvs, tw \in BOOLEAN :
+             c' = [fam |-> "pct", flag |-> fl, width |-> w, prec |-> pr, conv |-> cv, two |-> tw] /\ stage' = "done"
 AddTarget ==
     /\ stage = "targets" /\ Len(c.targets) < MaxTargets
     /\ \E k \in TargetKinds : c' = [c EXCEPT !.targets = Append(@, k)]
